@@ -93,8 +93,17 @@ class SrvUnderTest(object):
             if run.gate is not None:
                 run.gate.wait(60)
             return {"probe": "gated", "bound": {"token": token}}
+        def fail_exit(token):
+            log.add("fail_exit", {"token": token})
+            raise SystemExit("method called sys.exit()")
+
+        def fail_interrupt(token):
+            log.add("fail_interrupt", {"token": token})
+            raise KeyboardInterrupt()
         self.srv.server.register_function(slow, "slow")
         self.srv.server.register_function(gated, "gated")
+        self.srv.server.register_function(fail_exit, "fail_exit")
+        self.srv.server.register_function(fail_interrupt, "fail_interrupt")
 
     def pool_workers(self):
         # workers of the request pool the server stops: the user pool (named) or the default one
@@ -144,8 +153,10 @@ def client_thread(ctx_lock, results, sut, cid, nops, seed, bad_every):
                 rec = ("batch", toks, [x["bound"]["token"] for x in res], 1)
             elif r < 0.8:
                 t = tok()
+                # failing methods: an ordinary exception, sys.exit(), a KeyboardInterrupt raised by the method
+                name = rng.choice(["fail", "fail", "fail", "fail_exit", "fail_interrupt"])
                 try:
-                    proxy.fail(t)
+                    getattr(proxy, name)(t)
                     rec = ("failing", [t], ["<no error raised>"], 1)
                 except jsonrpclib.ProtocolError:
                     rec = ("failing", [t], [t], 1)
